@@ -7,6 +7,19 @@ props = [json.loads(l) for l in open(os.path.join(ROOT, "properties.jsonl"))]
 S = "bounded-exhaustive operation-sequence exploration + explicit-state BFS of the real in-memory cache (Engine S) against a reference model"
 V = "stateless deviation-bounded exploration of the real hybrid cache under a deterministic runtime and sim IO engine (Engine V)"
 CHECKS = {
+ "C03": ("F", "fault_enumeration", "exhaustive single-page fault enumeration (zero / bit flips / page swaps / stale generations) over device images produced by real workloads, each reopened and fully read through the real code (enumerator F on Engine V images)",
+   "Every page of every partition file incl. the tombstone log x the fault menu; 2 base images (quick) / 12 (thorough: compression x tombstone log x fresh/wrapped).",
+   "Single-page faults only; values carry key+version+deterministic payload so any foreign or garbage byte is visible; worker death while evaluating an image is reported as a verdict (journal).", "DESIGN.md 2.8, 4 C03"),
+ "C04": ("K", "fault_enumeration", "exhaustive crash-point / in-flight-subset / page-tear enumeration over the device-write logs of explored executions, each crash image recovered by the real code (enumerator K on Engine V logs)",
+   "All workloads of 4 (5) calls over insert/overwrite/remove/wait x policies x tombstone log; every write boundary x every subset of in-flight writes x page tears; crash/restart depth 2.",
+   "Page-atomic device writes; concurrent writes unordered; acknowledgement = wait() first polled after the version reached the write queue and completed before the crash.", "DESIGN.md 2.8, 4 C04"),
+ "C07": ("V", "model_checking", V + " with harness-controlled batch boundaries; independent on-disk-format reader D",
+   "Regime A: all sequences of <=4 (6) entries over boundary sizes x all cuts into <=4 batches x 1-2 flushers on 16 KiB blocks; regime B: entry counts around the 170-slot blob index boundary on 1 MiB blocks; image parsed after every batch, read-back before and after reopen.",
+   "FIFO schedule per batch sequence (schedule variation is C01/C09's); no entry may be shed.", "DESIGN.md 4 C07"),
+ "C10": ("V", "model_checking", "exhaustive enumeration of delete-count / batching / restart-kind histories on the real tombstone log (Engine V, FIFO schedule)",
+   "Product of first-cycle delete counts around the 256-slot page boundaries and the log capacity x later-cycle counts x one-per-flush/all-in-one x graceful/crash restarts, up to 3 cycles, logs of 2 and 3 pages, with re-inserts.",
+   "One schedule per history; delete counts within the log capacity as the property states.", "DESIGN.md 4 C10"),
+
  "C01": ("V", "model_checking", V + "; oracle: per-key version register R",
    "Every program of <=3 (4) client calls x both policies x tombstone log on/off (+ algorithms, compression, flushers in thorough) under four base schedules with all schedules within the deviation bound; versioned values make staleness observable.",
    "One task poll / one IO completion is atomic; tokio and the kernel are replaced by vrt/simio; shedding limits never trigger; removes durable across restart only with the tombstone log (documented).", "DESIGN.md 2.3, 4 C01"),
@@ -64,7 +77,8 @@ manifest = {
     },
     "engines": [
         {"name": "S", "path": "harness/checks/src/seq.rs", "serves_properties": ["C05", "C13", "C14", "C18"], "kind_free_text": "exhaustive operation sequences + explicit-state BFS on the real in-memory cache, lock-step with a reference ledger / reference algorithms"},
-        {"name": "V", "path": "harness/checks/src/hyb.rs", "serves_properties": ["C01", "C06", "C11", "C12", "C15", "C17"], "kind_free_text": "deviation-bounded stateless exploration of the real hybrid cache: vrt (madsim-tokio substitute) owns task polling, simio owns device IO completion/failure, the client program owns call timing"},
+        {"name": "V", "path": "harness/checks/src/hyb.rs", "serves_properties": ["C01", "C06", "C07", "C10", "C11", "C12", "C15", "C17"], "kind_free_text": "deviation-bounded stateless exploration of the real hybrid cache: vrt (madsim-tokio substitute) owns task polling, simio owns device IO completion/failure, the client program owns call timing"},
+        {"name": "F/K", "path": "harness/checks/src/props_c03.rs, props_c04.rs", "serves_properties": ["C03", "C04"], "kind_free_text": "fault / crash enumerators over images and IO logs produced by Engine V, evaluated by real recovery"},
         {"name": "core", "path": "harness/vcore", "serves_properties": sorted(done), "kind_free_text": "iterative deviation bounding, replay files, evidence, known findings, process sharding"},
     ],
     "checks": checks,
